@@ -49,7 +49,7 @@ def _needed_budget(fields):
     return n
 
 
-def gen_case(rng, tier):
+def _gen_case(rng, tier):
     fields = gm.gen_fields(rng, max_fields=8, max_file=(400 if tier == 'quick' else 8192))
     blobs = []
     for f in fields:
@@ -181,7 +181,7 @@ def _brief(vs):
     return out
 
 
-def summarise(case):
+def _summarise(case):
     c = dict(case)
     c['fields'] = [dict(f, data=(f['data'][:40] + '...' if len(f.get('data') or '') > 40 else f.get('data'))) if 'filename' in f else f
                    for f in case['fields']][:6]
@@ -201,7 +201,7 @@ def _site(exc):
     return site
 
 
-def run_case(case):
+def _run_case(case):
     res = new_result()
     log = Log(case.get('_seed'))
     fields = case['fields']
@@ -274,7 +274,7 @@ def run_case(case):
     return res
 
 
-def shrink_candidates(case):
+def _shrink_candidates(case):
     fields = case['fields']
 
     def refit(c):
@@ -334,3 +334,32 @@ def shrink_candidates(case):
     if len(case['touch']) > 1:
         for t in case['touch']:
             yield dict(case, touch=[t])
+
+
+# ---- concurrent twin runs (sim.twin): a share of the seeded cases is served by 2-3 threads at once --------
+from .. import twin as _twin   # noqa: E402
+
+TWIN_SHARE = 0.05
+
+
+def gen_case(rng, tier):
+    return _twin.maybe_wrap(rng, _gen_case(rng, tier), TWIN_SHARE)
+
+
+def run_case(case):
+    if 'twin' in case:
+        return _twin.run(lambda inner, i: _run_case(inner), case)
+    return _run_case(case)
+
+
+def shrink_candidates(case):
+    if 'twin' in case:
+        yield from _twin.shrink_candidates(case, _shrink_candidates)
+        return
+    yield from _shrink_candidates(case)
+
+
+def summarise(case):
+    if 'twin' in case:
+        return {'twin_of': _summarise(case["twin"]), 'threads': case.get('n', 2), 'plan': case['plan']}
+    return _summarise(case)
